@@ -131,3 +131,31 @@ pub fn finish_report(kind: &str, cases: usize, mismatches: &[Value], path: Optio
     }
     println!("{}", summary);
 }
+
+static PROBES: std::sync::atomic::AtomicU64 = std::sync::atomic::AtomicU64::new(0);
+
+/// Rendering is an observation (`&self`): at intermediate points of every multi-step session (between parse and
+/// extend, between construction operations) the tree is rendered with probability 1/2 (a fixed pseudo-random
+/// schedule derived from VERIF_SEED; VERIF_PROBE=all / none overrides it) and the text thrown away. Anything a
+/// rendering leaves behind in the tree (an interior cache) then meets the later steps, and shows in the renderings
+/// that are judged.
+pub fn probe_render(e: &xml_schema_generator::Element<String>) {
+    static MODE: std::sync::OnceLock<(u8, u64)> = std::sync::OnceLock::new();
+    let (mode, seed) = *MODE.get_or_init(|| {
+        let m = match std::env::var("VERIF_PROBE").as_deref() {
+            Ok("all") => 1,
+            Ok("none") => 2,
+            _ => 0,
+        };
+        (m, std::env::var("VERIF_SEED").ok().and_then(|s| s.parse().ok()).unwrap_or(0))
+    });
+    let n = PROBES.fetch_add(1, std::sync::atomic::Ordering::Relaxed);
+    let go = match mode {
+        1 => true,
+        2 => false,
+        _ => Rng::new(seed ^ n.wrapping_mul(0x9E37_79B9_7F4A_7C15)).chance(1, 2),
+    };
+    if go {
+        let _ = std::panic::catch_unwind(std::panic::AssertUnwindSafe(|| e.to_serde_struct(&xml_schema_generator::Options::quick_xml_de())));
+    }
+}
